@@ -27,8 +27,10 @@ pub fn dash_path(path: &Path, dash_array: &[f32], mut dash_offset: f32) -> Path 
         total_dash_length *= 2.;
     }
 
-    // The dash length must be more than zero.
-    if !(total_dash_length > 0.) {
+    // The dash length must be more than zero. It also has to be finite: with entries so
+    // large that their sum overflows to infinity `dash_offset % total_dash_length` leaves a
+    // negative offset as it is and adding infinity to it makes the loop below endless.
+    if !(total_dash_length > 0.) || !total_dash_length.is_finite() {
         return dashed.finish();
     }
 
